@@ -17,16 +17,17 @@ import (
 
 // Ctx is the per-worker state: which cases to run and what was observed.
 type Ctx struct {
-	Prop    string
-	Tier    string
-	Seed    uint64
-	Shard   int
-	NShards int
-	Start   int64
-	Only    int64
-	Variant string
-	Verbose bool
-	Repo    string
+	Prop        string
+	Tier        string
+	Seed        uint64
+	Shard       int
+	NShards     int
+	Start       int64
+	Only        int64
+	Variant     string
+	Verbose     bool
+	needRestart bool
+	Repo        string
 
 	out      *bufio.Writer
 	outFile  *os.File
